@@ -301,6 +301,53 @@ def rule_rec_once(ctx):
     return r
 
 
+def _unwraps(e):
+    """expression reads the *value* of a node: <expr>.x or _get_val(...)"""
+    for n in ast.walk(e):
+        if isinstance(n, ast.Attribute) and n.attr == 'x':
+            return True
+        if isinstance(n, ast.Call) and isinstance(n.func, ast.Attribute) and n.func.attr == '_get_val':
+            return True
+    return False
+
+
+def rule_rec_operands(ctx):
+    r = RuleResult('R-rec-operands', 'every element of a recorded argument list is the operand itself (self, a parameter, or '
+                                     'a parameter converted by totype) - never an unwrapped value such as <node>.x or _get_val(<node>), '
+                                     'which would freeze the recording-time value into the graph')
+    m = ctx.model
+    for s in tp.recorder_sites(m):
+        fi = s.fi
+        if fi.cls == 'Function' and fi.name in tp.OUTSIDE_API:
+            continue
+        conv = {}
+        for st in walk_no_nested(fi.node):
+            if isinstance(st, ast.Assign) and len(st.targets) == 1 and isinstance(st.targets[0], ast.Name):
+                conv.setdefault(st.targets[0].id, []).append(st.value)
+        ok = True
+        for e in s.pos:
+            if isinstance(e, ast.Name) and (e.id in fi.params or e.id == 'self'):
+                vals = conv.get(e.id, [])
+                bad = [v for v in vals if _unwraps(v)]
+                if bad:
+                    ok = False
+                    r.bad(Finding('R-rec-operands', _f(fi), 'rebound:' + e.id, '%s rebinds operand `%s` to `%s` before recording it'
+                                  % (fi.qualname, e.id, norm(bad[0])), fi.file, s.call.lineno))
+                continue
+            if isinstance(e, ast.Name) and e.id in conv and all(
+                    isinstance(v, ast.Call) and isinstance(v.func, ast.Attribute) and v.func.attr == 'totype' for v in conv[e.id]):
+                continue
+            if not _unwraps(e) and not isinstance(e, ast.Call):
+                continue
+            ok = False
+            r.bad(Finding('R-rec-operands', _f(fi), 'operand:' + norm(e), '%s records `%s` instead of the operand itself: the graph keeps the '
+                          'recording-time value and loses the dependency' % (fi.qualname, norm(e)), fi.file, s.call.lineno))
+        if ok:
+            r.ok(construct=fi.qualname + '@%d' % s.call.lineno, sample='%s records [%s]' % (fi.qualname, ', '.join(norm(e) for e in s.pos)))
+    r.floor = 60
+    return r
+
+
 def rule_rec_same(ctx):
     r = RuleResult('R-rec-same', 'the node stores the callable, argument list and keyword arguments that were used for '
                                  'the call; replay iterates the recorded nodes in list order and hands back exactly those '
